@@ -184,7 +184,9 @@ pub fn run(e: &Engine) {
         let cap = if idx % 2 == 0 { usize::MAX } else { 3 };
         enumerate(pairs, *set, cap, rec)
     });
-    // generated sequences, still every position x kind for each
+    // generated sequences, still every position x kind for each (a shrink
+    // candidate costs W x 7 builds: keep the shrink budget small)
+    e.max_shrink_iters.store(150, std::sync::atomic::Ordering::SeqCst);
     e.run_prop(
         "random-sequences-every-position-x-kind",
         e.tier.pick(500, 20_000),
